@@ -21,7 +21,22 @@ HEADER_GEN = ("From Qib Require Import Backend.LifeCheck.\nFrom Run Require Impo
 # used only when the translator refuses the source: compare against the documented tables instead, so that the
 # deviation can still be turned into a concrete failing input
 HEADER_DOC = ("From Qib Require Import Backend.LifeCheck.\nDefinition bad := bad_cases_with doc_tables.\n")
+HEADER_DOC_FJ = ("From Qib Require Import Backend.LifeCheck.\nDefinition bad := bad_cases_with doc_tables_fj.\n")
 HEADER = HEADER_GEN
+# True when from_json itself records the results of a 'finished' reply (the code with
+# proposed_fixes/C17-results-of-finished-submission.diff): then "DONE without results after a submission answered
+# 'finished'" is no longer the known finding but a regression
+REPAIRED = [False]
+
+
+def detect_repaired():
+    import inspect
+    from qib.backend.wmi import WMIExperiment
+    try:
+        REPAIRED[0] = "_results" in inspect.getsource(WMIExperiment.from_json)
+    except Exception:
+        REPAIRED[0] = False
+    return REPAIRED[0]
 
 # documented mapping, written from the property text / class documentation (oracle side)
 DOC = {"pending": "QUEUED", "active": "RUNNING", "finished": "DONE", "cancelled": "CANCELLED", "offline": "ERROR"}
@@ -38,10 +53,11 @@ class ScriptExhausted(Exception):
 # ------------------------------------------------------------------------------------------ fakes
 
 class Server:
-    """outs: list of ('ok', status, job, payload) | ('timeout', variant) | ('http', code) | ('req',) | ('conn',)"""
+    """outs: list of ('ok', status, job, payload) | ('timeout', variant) | ('http', code) | ('req',) | ('conn',)
+    | ('badjson',) | ('missing', field, status, job, payload)   (the last two: malformed replies, oracle-only)"""
 
     def __init__(self, outs):
-        self.outs, self.ptr, self.log, self.served = list(outs), 0, [], []
+        self.outs, self.ptr, self.log, self.served, self.malformed = list(outs), 0, [], [], []
 
     def left(self):
         return len(self.outs) - self.ptr
@@ -74,16 +90,41 @@ class Server:
                     raise requests.exceptions.TooManyRedirects("scripted request error")
                 r.raise_for_status = bad
                 return r
-            _, status, job, payload = o
             r.status_code = 200
-            body = {"job_id": "J%d" % job, "execution_datetime": "2024-01-01T00:00:00", "status": status}
-            if status == "finished":
-                body["runtime"] = payload
-                body["counts"] = [{"0x0": payload}]
-            r.json = lambda: body
+            if k == "badjson":
+                def nojson():
+                    raise requests.exceptions.JSONDecodeError("scripted non-JSON body", "<html>", 0)
+                r.json = nojson
+                self.malformed.append(o)
+                return r
+            if k == "missing":
+                _, field, status, job, payload = o
+                body = make_body(status, job, payload)
+                if field in body:
+                    body.pop(field)
+                    r.json = lambda: dict(body)
+                    self.malformed.append(o)
+                    return r
+                o = ("ok", status, job, payload)     # the field is not part of this reply anyway: well-formed
+            _, status, job, payload = o
+            body = make_body(status, job, payload)
+            r.json = lambda: dict(body)
             self.served.append(o)
             return r
         return fn
+
+
+def counts_for(payload):
+    """the server's count dictionary of a finished job (several keys, a zero count, a large count)"""
+    return {"0x0": payload, "0x1": 0, "0x3": 7 * payload + 1}
+
+
+def make_body(status, job, payload):
+    body = {"job_id": "J%d" % job, "execution_datetime": "2024-01-01T00:00:00", "status": status}
+    if status == "finished":
+        body["runtime"] = payload
+        body["counts"] = [counts_for(payload)]
+    return body
 
 
 class Clock:
@@ -183,11 +224,36 @@ def classify(ex):
         return ("ONet", "XConn")
     if isinstance(ex, AttributeError) and "NoneType" in str(ex) and "json" in str(ex):
         return ("OCrash",)
+    if isinstance(ex, KeyError) and ex.args and ex.args[0] in ("job_id", "execution_datetime", "status", "runtime", "counts"):
+        return ("OMalformed", ex.args[0])
+    if isinstance(ex, requests.exceptions.JSONDecodeError):
+        return ("OMalformed", "json")
     return ("OOther", type(ex).__name__ + ": " + str(ex)[:80])
 
 
-def run_impl(procname, evs, outs):
-    """run a client script against a scripted history on the implementation"""
+BAD_COUNTS = -777     # identifier of a results object whose counts are not the ones the server sent with that runtime
+
+
+def res_id(r):
+    """results object -> the payload identifier the server sent (runtime), checked against the counts"""
+    if r is None:
+        return None
+    rt = r.runtime
+    try:
+        same = (r.get_counts() == counts_for(rt))
+    except Exception:
+        same = False
+    return rt if same else BAD_COUNTS
+
+
+def ev_kind(e):
+    return e.split("#")[0]
+
+
+def run_impl(procname, evs, outs, want_exp=False):
+    """run a client script against a scripted history on the implementation.
+    Events: Submit | Query | Results | Await | AwaitBegin[#k] | AwaitResume[#k]; '#k' names a further, concurrently
+    pending wait_for_results coroutine of the same experiment (oracle-only: the model has one)."""
     from qib.backend.wmi import WMIExperiment, WMIOptions
     proc, mod, circ = PROCS[procname]
     server, clock = Server(outs), Clock()
@@ -195,15 +261,13 @@ def run_impl(procname, evs, outs):
     with Patched(server, clock) as P, contextlib.redirect_stdout(io.StringIO()):
         opts = WMIOptions(shots=16)
         exp = WMIExperiment("C17", circ, opts, proc.configuration(), proc.credentials)
-        coro = None
-
-        def res_id(r):
-            return None if r is None else r.runtime
+        coros = {}
 
         for e in evs:
-            served0, log0 = len(server.served), len(server.log)
+            served0, log0, mal0 = len(server.served), len(server.log), len(server.malformed)
+            kind, _, tag = e.partition("#")
             try:
-                if e == "Submit":
+                if kind == "Submit":
                     if exp.status.value != "INITIALIZING":
                         o = ("OInvalid",)
                     else:
@@ -215,12 +279,12 @@ def run_impl(procname, evs, outs):
                             mod.WMIExperiment = saved
                         assert r is exp
                         o = ("OSubmitted", exp.status.value)
-                elif e == "Query":
+                elif kind == "Query":
                     o = ("OStatus", exp.query_status().value)
-                elif e == "Results":
+                elif kind == "Results":
                     o = ("OResults", res_id(exp.results()))
-                elif e == "Await":
-                    if coro is not None:
+                elif kind == "Await":
+                    if "" in coros:
                         o = ("OInvalid",)
                     else:
                         P.fa.manual = False
@@ -229,21 +293,21 @@ def run_impl(procname, evs, outs):
                             o = ("OResults", res_id(loop.run_until_complete(exp.wait_for_results())))
                         finally:
                             loop.close()
-                elif e in ("AwaitBegin", "AwaitResume"):
-                    if (e == "AwaitBegin") != (coro is None):
+                elif kind in ("AwaitBegin", "AwaitResume"):
+                    if (kind == "AwaitBegin") != (tag not in coros):
                         o = ("OInvalid",)
                     else:
                         P.fa.manual = True
-                        if coro is None:
-                            coro = exp.wait_for_results()
+                        if tag not in coros:
+                            coros[tag] = exp.wait_for_results()
                         try:
-                            coro.send(None)
+                            coros[tag].send(None)
                             o = ("OPending",)
                         except StopIteration as si:
-                            coro = None
+                            del coros[tag]
                             o = ("OResults", res_id(si.value))
                         except BaseException:
-                            coro = None
+                            del coros[tag]
                             raise
                 else:
                     raise AssertionError(e)
@@ -252,13 +316,16 @@ def run_impl(procname, evs, outs):
             except Exception as ex:
                 o = classify(ex)
             trace.append((o, exp.status.value, len(server.log)))
-            info.append({"served": server.served[served0:], "attempts": len(server.log) - log0})
-        if coro is not None:
-            coro.close()
+            info.append({"served": server.served[served0:], "attempts": len(server.log) - log0,
+                         "malformed": server.malformed[mal0:]})
+        for c in coros.values():
+            c.close()
         final = {"log": [(v, (jobnum(b.get("job_id")) if v == "post" else None), u, b) for v, u, b in server.log],
                  "sleeps": list(clock.sleeps), "results": res_id(exp._results), "job": jobnum(exp._job_id),
                  "left": server.left(), "freq": proc.configuration().query_frequency,
                  "url": proc.credentials.url, "served_all": list(server.served)}
+    if want_exp:
+        return trace, info, final, exp
     return trace, info, final
 
 
@@ -313,13 +380,26 @@ def oracle_life(ctx, desc, evs, outs, trace, info, final):
 
     prev_status, prev_log = "INITIALIZING", 0
     last_served, last_from_submit = None, False
+    tainted = False      # a malformed reply (outside the property's quantifier) has been processed
     for i, (e, (o, st, nlog), inf) in enumerate(zip(evs, trace, info)):
+        kind = ev_kind(e)
         if o[0] == "OOther":
             bad("lifecycle:unexpected-exception", "a documented outcome", o[1])
         for s in inf["served"]:
-            last_served, last_from_submit = s, (e == "Submit")
+            last_served, last_from_submit = s, (kind == "Submit")
+        mal = inf.get("malformed") or []
+        if mal:
+            # robustness (not part of the property's quantifier): a reply that is not JSON / lacks a field must surface as an
+            # exception of this very call, never be swallowed; what the status is afterwards is not prescribed
+            tainted = True
+            results_only = all(m[0] == "missing" and m[1] in ("runtime", "counts") for m in mal)
+            if o[0] != "OMalformed" and not (results_only and kind == "Submit" and not REPAIRED[0]):
+                # (a submission that does not read the results of its reply need not notice that they are missing)
+                bad("malformed:reply-swallowed", "KeyError / JSONDecodeError propagates", repr(o))
+            if st == "DONE" and final["results"] is None:
+                ctx.count("robustness_DONE_without_results_after_finished_reply_without_results")
         # mapping of the last processed reply
-        if inf["served"]:
+        elif inf["served"]:
             want = DOC.get(last_served[1], "ERROR")
             if st != want:
                 bad("mapping:status-not-documented", "%s -> %s" % (last_served[1], want), st)
@@ -335,7 +415,7 @@ def oracle_life(ctx, desc, evs, outs, trace, info, final):
             if nlog != prev_log:
                 bad("terminal:request-after-terminal", "no request", "%d request(s) by %s" % (nlog - prev_log, e))
         # before submission
-        if prev_status == "INITIALIZING" and e != "Submit" and o[0] != "OInvalid":
+        if prev_status == "INITIALIZING" and kind != "Submit" and o[0] != "OInvalid":
             if o != ("ORefused",) or nlog != prev_log:
                 bad("presubmit:not-refused", "ValueError, no request", repr(o))
         # results
@@ -344,17 +424,21 @@ def oracle_life(ctx, desc, evs, outs, trace, info, final):
                 bad("results:returned-in-non-terminal-status", "terminal", st)
             if st != "DONE" and o[1] is not None:
                 bad("results:payload-although-not-DONE", None, o[1])
-            if st == "DONE":
+            if st == "DONE" and not tainted:
                 fin = last_served if (last_served and last_served[1] == "finished") else None
                 if o[1] is None:
-                    if last_from_submit:
+                    if last_from_submit and not REPAIRED[0]:
                         bad(KNOWN_SIG, "the server's results", None)
+                    elif last_from_submit:
+                        bad("results:None-while-DONE-after-finished-submission", "the server's results", None)
                     else:
                         bad("results:None-while-DONE", "the server's results", None)
+                elif o[1] == BAD_COUNTS:
+                    bad("results:counts-are-not-the-servers", fin and counts_for(fin[3]), "different counts")
                 elif fin is None or o[1] != fin[3]:
                     bad("results:not-the-servers-payload", fin and fin[3], o[1])
         # an event that issues at most one logical request makes at most 1 + max-retries attempts
-        if e in ("Submit", "Query", "AwaitBegin", "AwaitResume") and inf["attempts"] > 1 + MAXR[0]:
+        if kind in ("Submit", "Query", "AwaitBegin", "AwaitResume") and inf["attempts"] > 1 + MAXR[0]:
             bad("retry:more-than-1+max-attempts-in-one-request", "<= %d" % (1 + MAXR[0]), inf["attempts"])
         prev_status, prev_log = st, nlog
     for d in final["sleeps"]:
@@ -370,6 +454,10 @@ def oracle_life(ctx, desc, evs, outs, trace, info, final):
     for sig, ex, ob in fails:
         ctx.fail(sig, desc, ex, ob)
     return fails
+
+
+def snapshot(exp):
+    return (exp.status.value, res_id(exp._results), exp._job_id, exp.error)
 
 
 def run_retry(verb, outs):
@@ -479,12 +567,16 @@ def run(ctx):
         "Wall-clock behaviour (sockets, timeouts, sched, the asyncio event loop) is replaced by event lists: one scripted "
         "outcome per requests.put/post call; coroutine steps between await points are atomic (Python semantics, trusted). "
         "Server replies are well-formed JSON objects with job_id, execution_datetime, status (+ runtime, counts when finished).")
-    ctx.assumes.append("replies are well-formed; one experiment object; at most one pending wait_for_results coroutine at a time")
+    ctx.assumes.append("model: replies are well-formed; one experiment object; at most one pending wait_for_results coroutine at a "
+                       "time. Oracle-only histories (no model): up to three concurrently pending coroutines of one experiment; "
+                       "replies that are not JSON / lack job_id, execution_datetime, status, runtime or counts; the experiment of the "
+                       "previous history is re-inspected after every history (isolation of experiment objects)")
     ctx.rules.append("histories = reply sequences over {pending, active, finished, cancelled, offline, unknown string} "
                      "(exhaustive up to length %d) x fixed client scripts, plus random scripts over Submit/Query/Results/Await/"
                      "AwaitBegin/AwaitResume against random outcome lists with timeouts, HTTP 4xx/5xx, request and connection "
                      "errors; both processors. retry: all outcome sequences up to length %d, k timeouts + each kind, random. "
-                     "non-trivial = at least one request reached the server and the script has >= 2 events"
+                     "results objects are identified by runtime AND checked to carry the server's count dictionary (3 keys, one zero "
+                     "count). non-trivial = at least one request reached the server and the script has >= 2 events"
                      % ((5, 5) if ctx.thorough else (3, 4)))
     ctx.lib(["Backend/LifeCheck", "Backend/LifeProofs"])
     global HEADER
@@ -498,13 +590,19 @@ def run(ctx):
 
     ctx.log("library, translator, theorems done")
     setup_procs()
+    if detect_repaired():
+        ctx.notes.append("C17: from_json records the results of a 'finished' reply (repaired source): the guard of "
+                         "C17_results_exactly_when_done is vacuous, 'DONE without results after a finished submission' counts as a violation")
+    if not ok:
+        HEADER = HEADER_DOC_FJ if REPAIRED[0] else HEADER_DOC
     rng = ctx.rng
     cases = []
+    prev = []      # the previous history's experiment object and its state when that history ended
 
-    def life(procname, evs, outs, tag):
+    def life(procname, evs, outs, tag, model=True):
         desc = {"kind": "life", "proc": procname, "evs": list(evs), "outs": [list(o) for o in outs]}
         try:
-            trace, info, final = run_impl(procname, evs, outs)
+            trace, info, final, exp = run_impl(procname, evs, outs, want_exp=True)
         except Exception as ex:   # harness-level failure on this input
             ctx.fail("lifecycle:harness-crash", desc, "a trace", "%s: %s" % (type(ex).__name__, ex))
             return
@@ -512,12 +610,21 @@ def run(ctx):
         ctx.count("events", len(evs))
         for o, st, n in trace:
             ctx.count("outcome_" + o[0])
-        cases.append((t_life(evs, outs, trace, final), desc))
+        if model:
+            cases.append((t_life(evs, outs, trace, final), desc))
         if final["log"] and len(evs) >= 2:
             ctx.nontriv(repr((evs, outs)))
         if len(evs) >= 5 and len(final["log"]) >= 3:
             ctx.sample({"proc": procname, "evs": evs, "outs": outs, "trace": [list(t) for t in trace]})
         oracle_life(ctx, desc, evs, outs, trace, info, final)
+        # isolation: running this history must not have touched the experiment of the previous one (no state shared
+        # between experiment objects through class attributes, caches keyed by job id, shared configuration ...)
+        if prev:
+            pexp, psnap, pdesc = prev[0]
+            if snapshot(pexp) != psnap:
+                ctx.fail("isolation:another-experiment-changed-this-one", {"kind": "pair", "first": pdesc, "second": desc},
+                         psnap, snapshot(pexp))
+        prev[:] = [(exp, snapshot(exp), desc)]
 
     # -- the known finding, always run
     life("qsim", ["Submit", "Results", "Await", "Query"], [("ok", "finished", 7, 142)], "known_finding_input")
@@ -577,6 +684,42 @@ def run(ctx):
             outs[pos:pos] = [("timeout", i) for i in range(k)]
         life(rng.choice(["qsim", "qc"]), evs, outs, "random")
 
+    # -- oracle-only histories (outside the model): several wait_for_results coroutines of one experiment pending at the
+    #    same time, resumed in any order and interleaved with the other calls
+    two = ["AwaitBegin", "AwaitBegin#2", "AwaitResume", "AwaitResume#2", "AwaitResume#2", "AwaitResume", "Query", "Results",
+           "AwaitBegin#3", "AwaitResume#3"]
+    for _ in range(1500 if ctx.thorough else 250):
+        evs = ["Submit"] if rng.random() < 0.9 else []
+        for _i in range(rng.randint(2, 9)):
+            evs.append(rng.choice(two))
+        outs = []
+        for _i in range(rng.randint(0, 9)):
+            r = rng.random()
+            if r < 0.75:
+                kind = rng.choice(["pending", "active", "active", "pending", "finished", "cancelled", "offline", "unknown"])
+                outs.append(mk_reply(kind, rng, jobs, pay))
+            elif r < 0.9:
+                outs.append(("timeout", rng.randint(0, 2)))
+            else:
+                outs.append(rng.choice([("http", 500), ("req",), ("conn",)]))
+        life(rng.choice(["qsim", "qc"]), evs, outs, "concurrent_coroutines", model=False)
+
+    # -- oracle-only robustness histories: replies that are not JSON or lack a field (the property quantifies over status
+    #    replies; what must still hold: the failure surfaces as an exception of that call, statuses stay monotone, terminal
+    #    statuses silent and absorbing, nothing but the server's payload is ever returned)
+    MAL = [("badjson",)] + [("missing", f, st, 5, 55) for f in ("job_id", "execution_datetime", "status")
+                           for st in ("pending", "finished")] \
+        + [("missing", f, "finished", 6, 66) for f in ("runtime", "counts")]
+    for m in MAL:
+        for sc in SCRIPTS:
+            for pre in ([], [("ok", "pending", 2, 0)], [("ok", "pending", 2, 0), ("ok", "active", 2, 0)]):
+                life("qsim", sc, pre + [m, ("ok", "active", 3, 0), ("ok", "finished", 3, 77)], "malformed_reply", model=False)
+    for _ in range(1000 if ctx.thorough else 150):
+        evs = ["Submit"] + [rng.choice(["Query", "Results", "Await", "AwaitBegin", "AwaitResume"]) for _i in range(rng.randint(1, 6))]
+        outs = [mk_reply(rng.choice(KINDS), rng, jobs, pay) for _i in range(rng.randint(0, 5))]
+        outs.insert(rng.randint(0, len(outs)), rng.choice(MAL))
+        life(rng.choice(["qsim", "qc"]), evs, outs, "malformed_reply_random", model=False)
+
     ctx.log("implementation ran on %d lifecycle cases" % len(cases))
     dis = ctx.cases("life", HEADER, cases, fn="bad", shard=250)
     ctx.log("model evaluated")
@@ -628,7 +771,16 @@ def replay(ctx, data):
         outs = [tup(o) for o in inp["outs"]]
         res, attempts, left = run_retry(inp["verb"], outs)
         oracle_retry(ctx, inp, outs, res, attempts, left)
+    elif inp.get("kind") == "pair":
+        a, b = inp["first"], inp["second"]
+        _, _, _, exp = run_impl(a["proc"], a["evs"], [tup(o) for o in a["outs"]], want_exp=True)
+        snap = snapshot(exp)
+        run_impl(b["proc"], b["evs"], [tup(o) for o in b["outs"]])
+        if snapshot(exp) != snap:
+            ctx.fail(sig, inp, snap, snapshot(exp))
+        return
     else:
+        detect_repaired()
         outs = [tup(o) for o in inp["outs"]]
         trace, info, final = run_impl(inp["proc"], inp["evs"], outs)
         oracle_life(ctx, inp, inp["evs"], outs, trace, info, final)
@@ -637,7 +789,7 @@ def replay(ctx, data):
         import backend as gen_backend
         global HEADER
         ctx.lib(["Backend/LifeCheck"])
-        HEADER = HEADER_GEN if ctx.translate("GenLife", gen_backend.generate_life) else HEADER_DOC
+        HEADER = HEADER_GEN if ctx.translate("GenLife", gen_backend.generate_life) else (HEADER_DOC_FJ if REPAIRED[0] else HEADER_DOC)
         if inp.get("kind") == "retry":
             term = t_retry(outs, res, attempts, left)
         else:
